@@ -273,3 +273,14 @@ CHECKS['C13']['text'] += (
     "at once with a baulk record and never enters); accept_stamps (reneging date = now + sampled patience), next_renege_selected (the customer a renege event removes waits, holds no server, and its date is now and minimal), "
     "renege_spec (record, jockeying destination, unblocking); run_many_RenInvF / RenInv_means (scope: no pre-emption of any kind; patience draws >= 0): every waiting customer's date is >= now - nobody outwaits its patience - "
     "and no renege is ever scheduled in the past; no_past_renege_refuted is a closed witness of the open finding F-02c outside that scope. RenInv_b (sound) holds on every real in-scope snapshot visited.")
+CHECKS['C14']['text'] += (
+    " T2, second half (Coq, Inv/HorizonCount.v): engine_count - the loop of simulate_until_max_customers over the ENGINE MODEL (counts: exit_completed / exit_n / a_created / a_accepted) executes an event only while "
+    "the count is below n and stops after the FIRST event at which it reaches n (run_count_last), all four counts are monotone over events (run_many_count_mono), completed <= finished <= arrived, accepted <= arrived and "
+    "finished - completed = arrived - accepted (count_means), customers are left in place; an instance of Loop.v's abstract count loop (run_count_is_loop); cinv_b (sound) holds on every real snapshot visited.")
+CHECKS['C09']['text'] += (
+    " T2 on the STAGE-2 engine model (Inv/Route2.v, 1 450 lines; statements in Properties/C09_stage2.v): one specification theorem per router kind - Probabilistic / TransitionMatrix (positive probability, or the exit "
+    "with positive remainder; uniform draws > 0), Direct / Leave / jockeying Direct (the configured node, no draw), Cycle (the element at the stored position, which advances by one), JSQ / LoadBalancing (a listed destination "
+    "minimal for the size the router READS - n_pop - n_insvc resp. n_pop - first minimal with tie_break order), ProcessBased (head of the remaining route, popped; then the exit), FlexibleProcessBased (member of the first remaining set, "
+    "consumed per rule); next_node_for_allowed (every call of a routing object, all three modes), finish_service_route (released or blocked towards exactly the router's answer), change_customer_class_spec, "
+    "class_change_while_waiting_spec; run_many_PrioInv / priority_corresponds_to_class (priority = mapping[current class] after any number of events, every configuration and oracle); allowed_refuted_at_zero_draw and "
+    "zero_probability_transition_refuted are closed witnesses of the open finding F-09a. PrioInv_b and the configuration hypotheses are evaluated on every real snapshot visited.")
